@@ -389,6 +389,9 @@ def one_stream(s, rng, flags, ctype, jid, pw, cert, sm_resumable):
                          "<failure xmlns='http://jabber.org/protocol/compress'><unsupported-method/></failure>",
                          "<failure xmlns='http://jabber.org/protocol/compress'/>"]))
         ops.append("run")
+        if rng.random() < 0.5:
+            # the features did arrive: their time-out must not fire any more
+            ops += ["tick %d" % rng.choice([14999, 15000, 15001, 30000]), "run", "run"]
         traffic(s, rng, False)
         return
     sm_on = want_sm and not (flags & F_DISABLE_SM)
